@@ -50,6 +50,8 @@ CONSTANTS MaxNodes,    \* bound on the number of nodes of a graph
           RVariants,   \* variants of "reduce" nodes enumerated
           ReduceFixed, \* TRUE: save_reduce as implemented (since fix a37a275); FALSE: the old defective protocol,
                        \* kept only as a witness run that must violate RoundTripPlain (non-vacuity)
+          SetterFixed, \* FALSE: load_reduce returns the return value of state_setter(obj, state) (finding
+                       \* C17-reduce-state-setter); TRUE: the repaired loader ignores it, like pickle does
           Emit         \* TRUE: print one record per finished graph (for the replay harness)
 
 VARIABLES phase,   \* "init" "build" "save" "load" "judge" "done" "invalid"
@@ -601,8 +603,9 @@ LoadReduceFinish ==
            se == IF hset THEN <<LFr.acc[4]>> ELSE <<>>
            h2 == [h1 EXCEPT ![LFr.o].ch = <<LFr.acc[1], LFr.acc[2]>> \o st \o se \o items]
            ex == Existing(h2, "none", 0)
-           x == IF hset THEN (IF ex # 0 THEN ex ELSE Len(h2) + 1) ELSE LFr.o
-           h3 == IF hset /\ ex = 0 THEN Append(h2, Node("none", 0)) ELSE h2
+           lost == hset /\ ~SetterFixed          \* obj = state_setter(obj, state): a pickle-style setter returns None
+           x == IF lost THEN (IF ex # 0 THEN ex ELSE Len(h2) + 1) ELSE LFr.o
+           h3 == IF lost /\ ex = 0 THEN Append(h2, Node("none", 0)) ELSE h2
        IN
        IF bad \/ unhash THEN /\ Finish(TRUE) /\ UNCHANGED <<h, lst, hroot>>
        ELSE ReturnTo(h3, x)
@@ -669,7 +672,8 @@ BuildOnly == phase \in {"init", "build", "invalid"} \/ (phase = "save" /\ hist =
 Edges(gg) == {<<a, b>> \in (1..Len(gg)) \X (1..Len(gg)) : b \in Range(gg[a].ch)}
 \* the reduce variants that do not round-trip: with a state_setter the loader returns the setter's return
 \* value (known finding C17-reduce-state-setter); the old save_reduce (~ReduceFixed) lost listitems / dictitems
-DefectFree(gg) == \A n \in 1..Len(gg) : gg[n].k = "reduce" => (gg[n].v = 1 \/ (ReduceFixed /\ gg[n].v \in {2, 3, 4}))
+DefectFree(gg) == \A n \in 1..Len(gg) : gg[n].k = "reduce" =>
+                         (gg[n].v = 1 \/ (ReduceFixed /\ gg[n].v \in {2, 3, 4}) \/ (SetterFixed /\ gg[n].v = 5))
 Saved == phase \in {"load", "judge", "done"}
 
 \* one h5 object per python object; every reference is a link to *the* object of its target
